@@ -849,7 +849,8 @@ pub fn comp_parts(id: &str) -> Vec<CompPart> {
         "C04" => vec![CompPart { engine: "typed-c04", quick: 1_600, thorough: 30_000 }],
         "C09" => vec![CompPart { engine: "typed-c09", quick: 1_600, thorough: 30_000 }],
         "C03" => vec![CompPart { engine: "typed-c03", quick: 1_600, thorough: 30_000 }],
-        "C16" | "C20" => vec![CompPart { engine: "typed-all", quick: 1_600, thorough: 30_000 }],
+        "C16" => vec![CompPart { engine: "typed-all", quick: 1_600, thorough: 30_000 }],
+        "C20" => vec![CompPart { engine: "typed-all", quick: 1_600, thorough: 30_000 }, CompPart { engine: "scale", quick: 12, thorough: 120 }],
         _ => vec![],
     }
 }
@@ -933,7 +934,7 @@ pub fn stress_parts(id: &str) -> Vec<StressPart> {
     let pc = |kind, quick, thorough, async_pct| StressPart { force_collide: true, kind, quick, thorough, async_pct };
     match id {
         "C02" => vec![p(Kind::Invariants, 640, 12000, 25), p(Kind::Validated, 200, 4000, 25), pc(Kind::Invariants, 2400, 20000, 25)],
-        "C17" => vec![p(Kind::Invariants, 640, 12000, 25), p(Kind::Lookups, 240, 4000, 35)],
+        "C17" => vec![p(Kind::Invariants, 640, 12000, 25), p(Kind::Lookups, 240, 4000, 35), p(Kind::Close, 480, 8000, 30)],
         "C01" | "C06" => vec![p(Kind::Invariants, 640, 12000, 25)],
         "C08" => vec![p(Kind::Invariants, 1280, 16000, 25)],
         "C11" => vec![p(Kind::Invariants, 640, 12000, 25)],
